@@ -96,6 +96,19 @@ func main() {
 			orders[i] = o
 		}
 		pub := dial()
+		// in every other round the channels already have ONE subscriber, which hangs up at the very moment the others
+		// subscribe: whatever is torn down for the connection that leaves must not take the new subscriptions with it
+		var leaver *cl
+		if round%2 == 1 {
+			leaver = dial()
+			argv := [][]byte{[]byte("SUBSCRIBE")}
+			for _, c := range chs {
+				argv = append(argv, []byte(c))
+			}
+			leaver.c.SetWriteDeadline(time.Now().Add(40 * time.Second))
+			leaver.c.Write(respcodec.EncodeCommand(argv))
+			readValue(leaver, 40*time.Second)
+		}
 		finished := make(chan string, 1)
 		go func() {
 			var wg sync.WaitGroup
@@ -123,8 +136,19 @@ func main() {
 					}
 				}(i)
 			}
+			if leaver != nil {
+				wg.Add(1)
+				go func() {
+					defer wg.Done()
+					<-start
+					leaver.c.Close()
+				}()
+			}
 			close(start)
 			wg.Wait()
+			if leaver != nil {
+				time.Sleep(2 * time.Millisecond) // let the server notice the closed connection (its count is then exact again)
+			}
 			select {
 			case e := <-errs:
 				finished <- e
@@ -153,7 +177,8 @@ func main() {
 					finished <- fmt.Sprintf("PUBLISH %s did not return (%v)", c, err)
 					return
 				}
-				if v.Kind != ':' || int(v.Int) != nsub {
+				// (a subscriber whose disconnect the server has not processed yet may still be counted: DESIGN 2.4)
+				if v.Kind != ':' || (int(v.Int) != nsub && !(leaver != nil && int(v.Int) == nsub+1)) {
 					finished <- fmt.Sprintf("PUBLISH %s reported %d receivers, %d connections are subscribed", c, v.Int, nsub)
 					return
 				}
